@@ -802,11 +802,16 @@ def fromJsonScan (fuel : Nat) (j : PyVal) : Res Scan := do
                     regions := i.regions, tables := i.tables, lines := i.lines }
   return (s.mapAll (Hdr.setMeta "scan_id" id)).setParentage
 
+/-- `t in s` for strings: `t` occurs as a contiguous substring of `s` -/
+def isSubstr (t : List Char) : List Char → Bool
+  | [] => t.isEmpty
+  | c :: cs => t.isPrefixOf (c :: cs) || isSubstr t cs
+
 /-- `tag in json_doc['type']`: list membership, or substring test when `type` is a string -/
 def hasTag (ty : PyVal) (tag : String) : Res Bool :=
   match ty with
   | .list xs => .ok (xs.any (· = .str tag))
-  | .str s => .ok ((s.splitOn tag).length > 1)
+  | .str s => .ok (isSubstr tag.toList s.toList)
   | _ => .error .TypeError
 
 /-- json_to_pagexml_doc: the dispatch on the type tags (`none` = falls off the end, returns None) -/
